@@ -159,7 +159,7 @@ func (d *Document) writeJSONValue(buf *bytes.Buffer, value Value) error {
 			// Remove the extra newline that Encode adds
 			buf.Truncate(buf.Len() - 1)
 		} else {
-			buf.Write(quotes.WrapBytes(d.StringValueContentBytes(value.Ref)))
+			writeJSONString(buf, d.StringValueContentBytes(value.Ref))
 		}
 	case ValueKindList:
 		buf.WriteByte(literal.LBRACK_BYTE)
@@ -217,6 +217,94 @@ func (d *Document) writeJSONValue(buf *bytes.Buffer, value Value) error {
 		return fmt.Errorf("ValueToJSON: not implemented for kind: %s", value.Kind.String())
 	}
 	return nil
+}
+
+// writeJSONString writes the content of a non-block string literal (the bytes between the
+// quotes, escapes still in GraphQL syntax) as a JSON string. GraphQL and JSON share the escapes
+// \" \\ \/ \b \f \n \r \t \uXXXX, so these are copied. What JSON does not accept is rewritten:
+// a raw control character (GraphQL allows e.g. a TAB inside a string) is escaped, the
+// variable-width escape \u{X} is replaced by the character it denotes, and a backslash that
+// does not start an escape is escaped itself. The result is always valid JSON.
+func writeJSONString(buf *bytes.Buffer, content []byte) {
+	const hexDigits = "0123456789abcdef"
+	buf.WriteByte('"')
+	for i := 0; i < len(content); i++ {
+		c := content[i]
+		switch {
+		case c < 0x20:
+			buf.WriteString(`\u00`)
+			buf.WriteByte(hexDigits[c>>4])
+			buf.WriteByte(hexDigits[c&0xf])
+		case c == '"':
+			buf.WriteString(`\"`)
+		case c != '\\':
+			buf.WriteByte(c)
+		case i+1 < len(content) && bytes.IndexByte([]byte(`"\/bfnrt`), content[i+1]) != -1:
+			buf.WriteByte(c)
+			buf.WriteByte(content[i+1])
+			i++
+		case i+5 < len(content) && content[i+1] == 'u' && isHex(content[i+2:i+6]):
+			buf.Write(content[i : i+6])
+			i += 5
+		case i+2 < len(content) && content[i+1] == 'u' && content[i+2] == '{':
+			r, n := parseBracedUnicodeEscape(content[i+3:])
+			if n == 0 {
+				buf.WriteString(`\\`)
+				continue
+			}
+			switch {
+			case r < 0x20:
+				buf.WriteString(`\u00`)
+				buf.WriteByte(hexDigits[r>>4])
+				buf.WriteByte(hexDigits[r&0xf])
+			case r == '"' || r == '\\':
+				buf.WriteByte('\\')
+				buf.WriteRune(r)
+			default:
+				buf.WriteRune(r)
+			}
+			i += 2 + n
+		default:
+			buf.WriteString(`\\`)
+		}
+	}
+	buf.WriteByte('"')
+}
+
+func isHex(b []byte) bool {
+	for _, c := range b {
+		if !(c >= '0' && c <= '9' || c >= 'a' && c <= 'f' || c >= 'A' && c <= 'F') {
+			return false
+		}
+	}
+	return true
+}
+
+// parseBracedUnicodeEscape parses "X}" (what follows "\u{"): one or more hex digits denoting a
+// Unicode scalar value and the closing brace. It returns the value and the number of bytes
+// consumed, or n == 0 if b does not start with a well-formed escape body.
+func parseBracedUnicodeEscape(b []byte) (r rune, n int) {
+	end := bytes.IndexByte(b, '}')
+	if end < 1 || !isHex(b[:end]) {
+		return 0, 0
+	}
+	for _, c := range b[:end] {
+		switch {
+		case c >= 'a':
+			r = r<<4 | rune(c-'a'+10)
+		case c >= 'A':
+			r = r<<4 | rune(c-'A'+10)
+		default:
+			r = r<<4 | rune(c-'0')
+		}
+		if r > 0x10FFFF {
+			return 0, 0
+		}
+	}
+	if r >= 0xD800 && r <= 0xDFFF {
+		return 0, 0
+	}
+	return r, end + 1
 }
 
 func (d *Document) ValueToJSON(value Value) ([]byte, error) {
